@@ -204,6 +204,7 @@ def run(ctx):
     _derivations(ctx)
     _virtual_inference(ctx)
     _default_base_access(ctx)
+    _by_name_keys(ctx)
 
 
 def _contains(tree, node):
@@ -440,3 +441,79 @@ def _default_base_access(ctx):
         ok = cfg.locate(pcall)[0] not in reach
         ctx.ob("R05.6", "append_derivation|always-defaulted", ok, fn.loc(pcall),
                "the base is %srecorded with an unspecified access on some path" % ("never " if ok else ""))
+
+
+def _by_name_keys(ctx):
+    """R05.7: the builder finds an already recorded type / function / property / sequence by name.  Members of different
+    classes keep separate records only if that name is the globally scoped one."""
+    db = ctx.db
+    ctx.rule("R05.7", "every key of InterrogateBuilder's _*_by_name tables is a globally scoped name: <decl>->get_local_name(&parser), TypeManager::get_function_name(), get_fully_scoped_name() or a literal - never a name relative to the class's own scope")
+    n = 0
+    for f in db.functions:
+        if not f.name.startswith("InterrogateBuilder::"):
+            continue
+        for c in f.walk():
+            if c.get("k") != "call" or callee_short(c) not in ("find", "operator[]", "count", "insert", "emplace"):
+                continue
+            subj = c.get("this") if "this" in c else (c["a"][0] if c.get("a") else None)
+            fl = field_of(subj) or ""
+            if not (fl.startswith("InterrogateBuilder::_") and fl.endswith("_by_name")):
+                continue
+            keyargs = c["a"][1:] if (callee_short(c) == "operator[]" and c.get("opc")) else c.get("a", [])
+            if not keyargs:
+                continue
+            key = strip_casts(peel(keyargs[0]))
+            lr = local_ref(key)
+            roots = []
+
+            def collect(e, depth=0):
+                e = strip_casts(peel(e))
+                if e is None or depth > 6:
+                    return
+                if e.get("k") == "str":
+                    roots.append(("literal", e))
+                    return
+                if e.get("k") == "call":
+                    nm = callee_short(e)
+                    if nm in ("get_local_name", "get_simple_name", "get_fully_scoped_name", "get_function_name", "get_function_signature", "get_preferred_name"):
+                        roots.append((nm, e))
+                        return
+                    if nm.startswith("operator+") or nm in ("operator+=", "basic_string"):
+                        for a in e.get("a", []):
+                            collect(a, depth + 1)
+                        return
+                if e.get("k") == "ctor":
+                    for a in e.get("a", []):
+                        if a.get("k") != "defarg":
+                            collect(a, depth + 1)
+                    return
+                r = local_ref(e)
+                if r is not None and r.get("dk") == "local":
+                    for st in f.walk():
+                        if st.get("k") == "decls":
+                            for d in st["d"]:
+                                if d.get("d") == r["d"] and d.get("init") is not None:
+                                    collect(d["init"], depth + 1)
+                    return
+                roots.append(("other", e))
+            collect(key)
+            if not roots:
+                continue
+            n += 1
+            bad = []
+            for kind, e in roots:
+                if kind in ("literal", "get_function_name", "get_function_signature", "get_fully_scoped_name"):
+                    continue
+                if kind == "get_local_name":
+                    a = [x for x in e.get("a", []) if x.get("k") != "defarg"]
+                    a0 = strip_casts(peel(a[0])) if a else None
+                    if a0 is not None and a0.get("k") == "un" and a0.get("op") == "&" and (strip_casts(peel(a0["e"])) or {}).get("n") == "parser":
+                        continue
+                    bad.append("get_local_name(%s)" % (show(a0) if a0 is not None else ""))
+                elif kind == "other":
+                    continue       # parameters etc.: judged at the caller's site
+                else:
+                    bad.append(kind + "()")
+            ctx.ob("R05.7", "%s|%s|key" % (f.name, fl.split("::")[-1]), not bad, f.loc(c),
+                   "%s is keyed by %s" % (fl.split("::")[-1], "a globally scoped name" if not bad else "%s: members of different classes share it" % ", ".join(bad)))
+    ctx.floor("R05.7", "by-name table accesses with a traceable key", n, 8)
